@@ -803,7 +803,10 @@ fn gen_hostile(r: &mut Rng, w: &World) -> Option<Hostile> {
                 nsim::mint(r, now - 100, srv.protocol_id, e, id, 15, &srv.addrs, None, &srv.key) // expired
             }
             3 => nsim::mint(r, now, srv.protocol_id, 300, id, 15, &srv.addrs, None, &other_key(&srv.key)), // foreign server key
-            _ => nsim::mint(r, now, srv.protocol_id, 300, id, 15, &[nsim::addr4(200, 200, 9)], None, &srv.key), // other host list
+            _ => {
+                let hosts = super::netcode_util::near_hosts(r, &srv.addrs); // other host list, close to the server's own
+                nsim::mint(r, now, srv.protocol_id, 300, id, 15, &hosts, None, &srv.key)
+            }
         };
         let mut d = request_of(&m);
         match which {
